@@ -14,7 +14,7 @@ var encodeTypes = []string{"Int", "Int8", "Uint64", "Float64", "Float32", "Bool"
 	"WithIface", "WithBytes", "StrTag", "CaseColl", "Ptrs", "Wide", "Floats", "Ints", "IntKeys", "WithShape", "MJ", "MJP", "MT", "MJC", "MJQ", "WithCB", "WithQ", "SliceMJ",
 	"SlicePtrMJP", "MapMTInt", "UJ", "UT", "WithUCB"}
 
-var decodeAllTypes = []string{"Int", "Int8", "Int16", "Int32", "Int64", "Uint", "Uint8", "Uint16", "Uint32", "Uint64", "Float64", "Float32", "Bool", "String", "Bytes", "Number", "Raw",
+var decodeAllTypes = []string{"Odd", "Int", "Int8", "Int16", "Int32", "Int64", "Uint", "Uint8", "Uint16", "Uint32", "Uint64", "Float64", "Float32", "Bool", "String", "Bytes", "Number", "Raw",
 	"Iface", "SliceInt", "SliceString", "SliceIface", "SliceBool", "SliceFloat", "SliceSmall", "SlicePtrSmall", "SliceSlice", "ArrInt3", "ArrStr2", "ArrU8", "ArrSmall2",
 	"MapStrInt", "MapStrIface", "MapStrString", "MapIntString", "MapStrSmall", "MapStrPtrSmall", "MapStrSlice", "MapStrMap", "PtrInt", "PtrPtrString", "PtrSmall", "Small",
 	"Tagged", "Big", "Nested", "Inner", "Leaf", "Embedded", "Recursive", "MutA", "WithIface", "WithBytes", "StrTag", "CaseColl", "Ptrs", "Wide", "Floats", "Ints", "IntKeys",
@@ -310,6 +310,7 @@ var pathDocs = []string{
 	`{"a":1}`, `{"a":null}`, `{"a":"str"}`, `[]`, `{}`, `null`, `123`, `"s"`,
 	`{"deep":{"l1":{"l2":{"l3":{"l4":"bottom"}}}},"b":[{"b":{"b":1}}]}`,
 	`{"a":{"b":[1,{"b":2}]},"b":3}`,
+	`{"a":true}`, `[null]`, `{"a":false,"x":null}`, `[true,false,null]`, `{"a":[null,true]}`,
 }
 
 var badPathDocs = []string{
@@ -319,6 +320,7 @@ var badPathDocs = []string{
 
 func pathStep(r *plan.Rng, h string, shared bool, bad bool) plan.Step {
 	st := plan.Step{H: h, Shared: shared}
+
 	if bad {
 		st.Doc = []byte(badPathDocs[r.Intn(len(badPathDocs))])
 	} else {
@@ -345,6 +347,11 @@ func pathStep(r *plan.Rng, h string, shared bool, bad bool) plan.Step {
 		st.Doc = nil
 	default:
 		st.Op = "path_extract"
+		if Variant != "inst" && Variant != "inst-race" && r.Chance(1, 3) {
+			// the caller overwrites what Extract returned (single-goroutine plans:
+			// the probe writes memory another task could be reading)
+			st.Probe = "mutate_output"
+		}
 	}
 	return st
 }
